@@ -18,7 +18,7 @@ fn hex_val(c: u8) -> Option<u8> {
 
 // ---------------------------------------------------------------------------------- JSON numbers
 crate::verif_harness! {
-    #[kani::unwind(12)]
+    #[kani::unwind(16)]
     fn c13_number_u64() {
         let v: u64 = kani::any();
         let got = num::deserialize(Value::Number(Number::from(v)));
@@ -33,7 +33,7 @@ crate::verif_harness! {
 }
 
 crate::verif_harness! {
-    #[kani::unwind(12)]
+    #[kani::unwind(16)]
     fn c13_number_i64() {
         let v: i64 = kani::any();
         let got = num::deserialize(Value::Number(Number::from(v)));
@@ -52,7 +52,7 @@ crate::verif_harness! {
 }
 
 crate::verif_harness! {
-    #[kani::unwind(12)]
+    #[kani::unwind(16)]
     fn c13_number_f64() {
         let f: f64 = kani::any();
         kani::assume(f.is_finite());
@@ -80,7 +80,7 @@ crate::verif_harness! {
 
 // optional chain id: null -> None, anything else as above
 crate::verif_harness! {
-    #[kani::unwind(12)]
+    #[kani::unwind(16)]
     fn c13_numopt() {
         let which: u8 = kani::any();
         kani::assume(which < 3);
@@ -265,7 +265,7 @@ bytes_field_harness! {
 
 // wrong JSON kinds for a byte field
 crate::verif_harness! {
-    #[kani::unwind(12)]
+    #[kani::unwind(16)]
     fn c13_bytes_wrong_kind() {
         let which: u8 = kani::any();
         kani::assume(which < 3);
